@@ -81,6 +81,17 @@ type Evaluator struct {
 	Inline   func(f *ssa.Function) bool                   // may the callee be inlined (pure accessor)?
 	MaxSteps int
 	depth    int
+	entryPhi bool // ValueAtEntry: a phi takes the value of its loop-entry edge(s)
+}
+
+// ValueAtEntry evaluates a pure expression tree outside any execution: loads
+// and calls come from the hooks, a Phi takes the value flowing in over the
+// edges that are not back edges (its value on first entry to the loop).
+func (e *Evaluator) ValueAtEntry(v ssa.Value) V {
+	e.entryPhi = true
+	defer func() { e.entryPhi = false }()
+	fr := &frame{vals: map[ssa.Value]V{}, mem: map[ssa.Value]V{}}
+	return e.val(fr, v)
 }
 
 type Outcome struct {
@@ -314,6 +325,34 @@ func (e *Evaluator) compute(fr *frame, v ssa.Value) V {
 		return a
 	case *ssa.ChangeInterface:
 		return e.val(fr, x.X)
+	case *ssa.Phi:
+		if e.entryPhi {
+			var res *V
+			for i, p := range x.Block().Preds {
+				if x.Block().Dominates(p) {
+					continue // back edge
+				}
+				r := e.val(fr, x.Edges[i])
+				if res == nil {
+					res = &r
+				} else if res.K != r.K || res.String() != r.String() {
+					return unkV
+				}
+			}
+			if res != nil {
+				return *res
+			}
+		}
+	case *ssa.Call:
+		if e.entryPhi && e.Call != nil {
+			var av []V
+			for _, a := range x.Call.Args {
+				av = append(av, e.val(fr, a))
+			}
+			if r, ok := e.Call(x, av); ok {
+				return r
+			}
+		}
 	case *ssa.Extract:
 		// filled by Call handling
 	case *ssa.Global:
